@@ -6,6 +6,7 @@ import (
 	"math"
 	"math/rand"
 	"strings"
+	"time"
 
 	"github.com/advancedclimatesystems/gonnx"
 	"github.com/advancedclimatesystems/gonnx/onnx"
@@ -356,13 +357,15 @@ func setTyped(tp *onnx.TensorProto, ti tinfo, vals []uint64) {
 	}
 }
 
+var decodeDeterminism = goOnlyResult{Stream: "C12_decode_determinism", Rule: "every generated TensorProto is decoded again (twice; twelve times when more than one payload field is populated): onnx.TensorFromProto must give the same outcome -- element type, shape, values or refusal -- every time", Violations: []string{}}
+
 func genC12(dir, tier string, seed int64) {
 	exactNaN = true
 	defer func() { exactNaN = false }()
 	r := rand.New(rand.NewSource(seed))
 	hdr := "From Coq Require Import List String ZArith.\nFrom V Require Import DType Case Decode CheckC12.\nImport ListNotations.\nOpen Scope Z_scope.\nDefinition cases : list pcase := ["
 	cwA := newCaseWriter(dir, "C12_decode", hdr, opFooter,
-		"onnx.TensorFromProto on generated TensorProtos: 11 element types x {typed field, raw little-endian bytes} x shapes of rank 0..4 (extents 1..3) x element bit patterns (extremes, negatives, NaN payloads incl. signalling, -0, random); payload length perturbed (short by a byte / an element, long by a byte / an element, empty); dims with a zero or negative entry or one entry off; every other data_type code 0..22, 99, negative ones and the int32 extremes with each typed field or raw populated or nothing populated; NaN payloads compared bit for bit", false, 500)
+		"onnx.TensorFromProto on generated TensorProtos: 11 element types x {typed field, raw little-endian bytes} x shapes of rank 0..4 (extents 1..3) x element bit patterns (extremes, negatives, NaN payloads incl. signalling, -0, random); payload length perturbed (short by a byte / an element, long by a byte / an element, empty); dims with a zero or negative entry or one entry off; every other data_type code 0..22, 99, negative ones and the int32 extremes with each typed field or raw populated or nothing populated, and codes 0, 16, 99 with every pair of typed fields (equal and different lengths) and all five populated; NaN payloads compared bit for bit", false, 500)
 	cwB := newCaseWriter(dir, "C12_load", hdr, opFooter,
 		"the same protos as one of three initializers (first, middle or last; the others well-formed) of a model whose declared output is that initializer: the model is first built once with gonnx.NewModel(mp), which must leave the proto byte-identical; then NewModelFromBytes(proto.Marshal(mp)) and Run with no inputs; the same model declaring one of the well-formed initializers as its output must load and run exactly when this one does (reported as a panic-class outcome otherwise)", false, 500)
 	cwC := newCaseWriter(dir, "C12_constant", hdr, opFooter,
@@ -371,7 +374,29 @@ func genC12(dir, tier string, seed int64) {
 		g := tprotoGallina(tp)
 		cwC.write(fmt.Sprintf("  {| pc_tp := %s; pc_obs := %s |}", g, observeConstant(tp)))
 		observeCOS(tp)
-		cwA.write(fmt.Sprintf("  {| pc_tp := %s; pc_obs := %s |}", g, observeDecode(proto.Clone(tp).(*onnx.TensorProto))))
+		first := observeDecode(proto.Clone(tp).(*onnx.TensorProto))
+		cwA.write(fmt.Sprintf("  {| pc_tp := %s; pc_obs := %s |}", g, first))
+		// decoding is a function of the proto: the same proto decoded again gives the same outcome (twelve
+		// more times when several typed fields are populated, twice otherwise)
+		nf := 0
+		for _, l := range []int{len(tp.FloatData), len(tp.Int32Data), len(tp.Int64Data), len(tp.DoubleData), len(tp.Uint64Data), len(tp.RawData)} {
+			if l > 0 {
+				nf++
+			}
+		}
+		again := 2
+		if nf >= 2 {
+			again = 12
+		}
+		decodeDeterminism.N++
+		for k := 0; k < again; k++ {
+			if o := observeDecode(proto.Clone(tp).(*onnx.TensorProto)); o != first {
+				if len(decodeDeterminism.Violations) < 10 {
+					decodeDeterminism.Violations = append(decodeDeterminism.Violations, fmt.Sprintf("TensorFromProto on %s: decoded again (attempt %d) it gives %s, the first time it gave %s", clip(g, 400), k+2, clip(o, 300), clip(first, 300)))
+				}
+				break
+			}
+		}
 		cwB.write(fmt.Sprintf("  {| pc_tp := %s; pc_obs := %s |}", g, observeLoad(tp)))
 		count("variant", tag)
 		count("data_type", fmt.Sprint(tp.DataType))
@@ -531,9 +556,132 @@ func genC12(dir, tier string, seed int64) {
 			emit(tp, "unsupported-type-"+field)
 		}
 	}
+	// data_type UNDEFINED (and two unsupported codes) with SEVERAL typed fields populated, of equal or of
+	// different lengths (so that which field is looked at decides the element count test as well): every
+	// pair of fields in both length assignments, and all five at once
+	fields := []string{"float", "int32", "int64", "double", "uint64"}
+	setField := func(tp *onnx.TensorProto, f string, n int) {
+		switch f {
+		case "float":
+			tp.FloatData = []float32{1, 2, 3}[:n]
+		case "int32":
+			tp.Int32Data = []int32{4, 5, 6}[:n]
+		case "int64":
+			tp.Int64Data = []int64{7, 8, 9}[:n]
+		case "double":
+			tp.DoubleData = []float64{10, 11, 12}[:n]
+		case "uint64":
+			tp.Uint64Data = []uint64{13, 14, 15}[:n]
+		}
+	}
+	for _, code := range []int32{0, 16, 99} {
+		for i, fa := range fields {
+			for _, fb := range fields[i+1:] {
+				for _, lens := range [][2]int{{2, 2}, {2, 3}, {3, 2}} {
+					tp := &onnx.TensorProto{DataType: code, Dims: []int64{2}}
+					setField(tp, fa, lens[0])
+					setField(tp, fb, lens[1])
+					emit(tp, "unsupported-type-two-fields")
+				}
+			}
+		}
+		for _, n := range []int{2, 3} {
+			tp := &onnx.TensorProto{DataType: code, Dims: []int64{2}}
+			for k, f := range fields {
+				setField(tp, f, []int{n, 5 - n}[k%2])
+			}
+			emit(tp, "unsupported-type-all-fields")
+		}
+	}
+	// several malformed initializers in ONE graph: the model is refused with an error, within a deadline,
+	// however many initializers are at fault and wherever they stand
+	multi := goOnlyResult{Stream: "C12_several_malformed", Rule: "graphs with 3..6 initializers of which two, three or all are malformed (payload short by an element, one value too many, unsupported data_type, a negative dim, raw bytes short by one): gonnx.NewModel and NewModelFromBytes return an error within 60 s -- no hang, no panic, no Model", Violations: []string{}}
+	bads := []func(n string) *onnx.TensorProto{
+		func(n string) *onnx.TensorProto {
+			return &onnx.TensorProto{Name: n, Dims: []int64{3}, DataType: 1, FloatData: []float32{1, 2}}
+		},
+		func(n string) *onnx.TensorProto {
+			return &onnx.TensorProto{Name: n, Dims: []int64{2}, DataType: 7, Int64Data: []int64{1, 2, 3}}
+		},
+		func(n string) *onnx.TensorProto {
+			return &onnx.TensorProto{Name: n, Dims: []int64{2}, DataType: 16, FloatData: []float32{1, 2}}
+		},
+		func(n string) *onnx.TensorProto {
+			return &onnx.TensorProto{Name: n, Dims: []int64{-2}, DataType: 1, FloatData: []float32{1, 2}}
+		},
+		func(n string) *onnx.TensorProto {
+			return &onnx.TensorProto{Name: n, Dims: []int64{2}, DataType: 1, RawData: []byte{0, 0, 128, 63, 0, 0, 0}}
+		},
+	}
+	goodInit := func(n string) *onnx.TensorProto {
+		return &onnx.TensorProto{Name: n, Dims: []int64{2}, DataType: 1, RawData: []byte{0, 0, 128, 63, 0, 0, 0, 64}}
+	}
+	nMulti := 40
+	if tier == "thorough" {
+		nMulti = 400
+	}
+	for c := 0; c < nMulti && len(multi.Violations) < 5; c++ {
+		n := 3 + r.Intn(4)
+		nBad := []int{2, 2, 3, n}[r.Intn(4)]
+		isBad := map[int]bool{}
+		for _, i := range r.Perm(n)[:nBad] {
+			isBad[i] = true
+		}
+		var inits []*onnx.TensorProto
+		desc := ""
+		for i := 0; i < n; i++ {
+			if isBad[i] {
+				k := r.Intn(len(bads))
+				inits = append(inits, bads[k](fmt.Sprintf("w%d", i)))
+				desc += fmt.Sprintf("bad%d ", k)
+			} else {
+				inits = append(inits, goodInit(fmt.Sprintf("w%d", i)))
+				desc += "good "
+			}
+		}
+		mp := &onnx.ModelProto{IrVersion: 7, OpsetImport: []*onnx.OperatorSetIdProto{{Version: 13}}, Graph: &onnx.GraphProto{Name: "g", Initializer: inits, Output: []*onnx.ValueInfoProto{{Name: "w0"}}}}
+		b, _ := proto.Marshal(mp)
+		multi.N++
+		done := make(chan string, 1)
+		go func() {
+			defer func() {
+				if rec := recover(); rec != nil {
+					done <- fmt.Sprintf("panic: %v", rec)
+				}
+			}()
+			var how string
+			if c%2 == 0 {
+				_, err := gonnx.NewModel(mp)
+				how = fmt.Sprintf("NewModel: err=%v", err)
+				if err != nil {
+					how = "refused"
+				}
+			} else {
+				_, err := gonnx.NewModelFromBytes(b)
+				how = fmt.Sprintf("NewModelFromBytes: err=%v", err)
+				if err != nil {
+					how = "refused"
+				}
+			}
+			done <- how
+		}()
+		select {
+		case how := <-done:
+			if how != "refused" {
+				multi.Violations = append(multi.Violations, fmt.Sprintf("initializers [%s]: %s", desc, how))
+			}
+		case <-time.After(60 * time.Second):
+			multi.Violations = append(multi.Violations, fmt.Sprintf("initializers [%s]: loading did not return within 60 s", desc))
+			nMulti = 0 // a hang leaves a goroutine behind: stop here
+		}
+	}
+	multi.Distinct = multi.N
+	meta.GoOnly = append(meta.GoOnly, multi)
 	cwA.close()
 	cwB.close()
 	cwC.close()
+	decodeDeterminism.Distinct = decodeDeterminism.N
+	meta.GoOnly = append(meta.GoOnly, decodeDeterminism)
 	cosRes.Distinct = cosRes.N
 	meta.GoOnly = append(meta.GoOnly, cosRes)
 	_ = tensor.Float32
